@@ -60,13 +60,49 @@ inline std::uint64_t hash_mix(std::uint64_t a, std::uint64_t b)
   return splitmix(s);
 }
 
+// Fuzz mode (-DVF_FUZZ, clang libFuzzer builds of the history harnesses): every rng draws its values from the fuzzer's
+// byte string instead of from the PRNG, so that a history is a function of the bytes and coverage feedback steers the
+// histories. An exhausted byte string yields zeros (the generators' loops are bounded by their own lengths).
+struct fuzz_src_t
+{
+  std::uint8_t const *p = nullptr;
+  std::size_t n = 0, i = 0;
+  bool active = false;
+  std::uint64_t take(unsigned bytes)
+  {
+    std::uint64_t v = 0;
+    for (unsigned k = 0; k < bytes; ++k)
+      v |= static_cast<std::uint64_t>(i < n ? p[i++] : 0) << (8 * k);
+    return v;
+  }
+};
+inline fuzz_src_t &fuzz_src()
+{
+  static fuzz_src_t f;
+  return f;
+}
+
 struct rng
 {
   std::uint64_t s;
   explicit rng(std::uint64_t seed) : s(seed) {}
-  std::uint64_t next() { return splitmix(s); }
+  std::uint64_t next()
+  {
+#ifdef VF_FUZZ
+    if (fuzz_src().active)
+      return fuzz_src().take(8);
+#endif
+    return splitmix(s);
+  }
   // uniform in [0,n)  (n > 0); modulo bias is irrelevant here
-  std::uint64_t below(std::uint64_t n) { return next() % n; }
+  std::uint64_t below(std::uint64_t n)
+  {
+#ifdef VF_FUZZ
+    if (fuzz_src().active)
+      return fuzz_src().take(n <= 256 ? 1 : n <= 65536 ? 2 : 8) % n;
+#endif
+    return next() % n;
+  }
   // uniform in [lo,hi]
   long long range(long long lo, long long hi)
   {
@@ -208,7 +244,9 @@ __attribute__((format(printf, 1, 2))) inline bool begin_case(char const *fmt, ..
   std::vsnprintf(s.witness + n, sizeof s.witness - static_cast<std::size_t>(n), fmt, ap);
   va_end(ap);
   ++s.evaluations;
+#ifndef VF_FUZZ
   ::alarm(opts().alarm_s);
+#endif
   return true;
 }
 // Appends to the witness of the running case (operation histories grow step by step,
@@ -301,6 +339,15 @@ inline void observation(std::string const &txt)
 inline void violation(std::string const &key, std::string const &kind, std::string const &detail)
 {
   state_t &s = st();
+#ifdef VF_FUZZ
+  if (fuzz_src().active)
+  {
+    // libFuzzer keeps the input of a crashing run as an artifact: a violation ends the process
+    std::string l = "VF-VIOLATION key=" + key + " kind=" + kind + " case=" + s.witness + " detail=" + detail + "\n";
+    write_all(2, l.data(), l.size());
+    std::abort();
+  }
+#endif
   ++s.viol_total;
   auto &c = s.viol_counts[key];
   ++c;
@@ -519,7 +566,27 @@ inline int run_main(int argc, char **argv, void (*body)())
     ++vf_c_;                                                                                                 \
   } while (false)
 
+#ifdef VF_FUZZ
+// libFuzzer entry: the harness defines  void vf_fuzz_one();  which runs ONE history with every vf::rng reading the input
+#define VF_MAIN(body)                                                                                        \
+  extern "C" int LLVMFuzzerTestOneInput(std::uint8_t const *data, std::size_t size)                          \
+  {                                                                                                          \
+    vf::fuzz_src_t &f = vf::fuzz_src();                                                                      \
+    f.p = data;                                                                                              \
+    f.n = size;                                                                                              \
+    f.i = 0;                                                                                                 \
+    f.active = true;                                                                                         \
+    vf::st().out_fd = -1;                                                                                    \
+    vf::st().counters.clear();                                                                               \
+    vf::st().distinct.clear();                                                                               \
+    vf::st().samples.clear();                                                                                \
+    vf::st().observations.clear();                                                                           \
+    vf_fuzz_one();                                                                                           \
+    return 0;                                                                                                \
+  }
+#else
 #define VF_MAIN(body)                                                                                        \
   int main(int argc, char **argv) { return vf::run_main(argc, argv, &body); }
+#endif
 
 #endif
